@@ -21,6 +21,11 @@ type ImageSpec struct {
 	NullPad    int       `json:"null_pad,omitempty"` // zero bytes appended to the payload (inside DataSize for v2)
 	Roots      []BlkSpec `json:"roots"`
 	Blocks     []BlkSpec `json:"blocks"`
+	// HeaderEnc selects an encoding of the CARv1 header that the library accepts although it is not the
+	// canonical DAG-CBOR it writes itself: 1 = the version as a two-byte integer (18 01), 2 = the roots
+	// as an indefinite-length array (9f .. ff). Used only by checks whose statement covers every accepted
+	// input (C13, C03), not where HEAD is known to depend on the canonical size (BlockReader offsets).
+	HeaderEnc int `json:"header_enc,omitempty"`
 }
 
 // Layout locates structure in a built image.
@@ -106,6 +111,28 @@ func BuildImage(spec ImageSpec) *Layout {
 		panic(&InfraError{"BuildImage: reference payload does not decode: " + err.Error()})
 	}
 	l.Payload = p
+	if spec.HeaderEnc != 0 {
+		_, hn, _ := ReadUvarint(payload)
+		body := append([]byte(nil), payload[hn:p.HeaderLen]...)
+		switch spec.HeaderEnc {
+		case 1:
+			body = append(body[:len(body)-1], 0x18, 0x01)
+		case 2:
+			// a2 65 "roots" <array head> roots... 67 "version" 01
+			ah := 1 + 1 + 5
+			_, ahn := cborHeadLen(body[ah:])
+			tail := append([]byte{0xff}, body[len(body)-9:]...) // break, then 67 "version" 01
+			body = append(append(append([]byte{}, body[:ah]...), 0x9f), append(append([]byte{}, body[ah+ahn:len(body)-9]...), tail...)...)
+		}
+		nh := append(PutUvarint(uint64(len(body))), body...)
+		delta := len(nh) - p.HeaderLen
+		payload = append(nh, payload[p.HeaderLen:]...)
+		p.HeaderLen += delta
+		for i := range p.Sections {
+			p.Sections[i].Off += int64(delta)
+		}
+		l.PayloadLen = int64(len(payload))
+	}
 	payload = append(payload, make([]byte, spec.NullPad)...)
 	if !spec.V2 {
 		l.Image = payload
@@ -135,6 +162,20 @@ func BuildImage(spec ImageSpec) *Layout {
 	}
 	l.Image = img
 	return l
+}
+
+// cborHeadLen returns the argument and the encoded length of the CBOR head at b[0].
+func cborHeadLen(b []byte) (uint64, int) {
+	switch ai := b[0] & 0x1f; {
+	case ai < 24:
+		return uint64(ai), 1
+	case ai == 24:
+		return uint64(b[1]), 2
+	case ai == 25:
+		return uint64(b[1])<<8 | uint64(b[2]), 3
+	default:
+		return 0, 5
+	}
 }
 
 // Region names where absolute offset off of the ORIGINAL image lies, and the
@@ -435,7 +476,7 @@ func GenImageSpec(r *Rng, maxBlocks int) ImageSpec {
 	// longer than the fixed-size heads and look-ahead buffers a reader may decode CIDs from
 	if r.Chance(1, 10) && len(s.Blocks) < maxBlocks+2 {
 		at := r.Intn(len(s.Blocks) + 1)
-		big := BlkSpec{Kind: "id", Seed: uint64(60 + r.Intn(3)), Size: Pick(r, []int{124, 130, 270, 600})}
+		big := BlkSpec{Kind: "id", Seed: uint64(60 + r.Intn(3)), Size: Pick(r, []int{124, 130, 270, 600, 124, 130, 270, 2100})}
 		s.Blocks = append(s.Blocks[:at:at], append([]BlkSpec{big}, s.Blocks[at:]...)...)
 	}
 	return s
